@@ -47,6 +47,16 @@ CHECKS = {
    "Crash points are the moments the sink can observe (returns of its own Write and of API calls); schedules are sampled.",
    "property-based testing (rapid) with an observing sink: invariant over the history of underlying writes, independent member walker as oracle",
    "DESIGN.md 3/C12"),
+ "C02": ("exploration",
+   "Model-based property testing: rapid BGZF files (1..8 blocks incl. empty ones, with/without marker, from the harness' own encoder or the library writer) and histories of up to 40 Seek/Read/ReadByte/Blocked/replay operations at rd 0..8 are run against a reference model (position = (block, offset), sticky end flag); every returned byte, error class, LastChunk (after translation to logical positions), BlockLen and 'seek to the reported Begin replays the same bytes' is compared; the history runs under a watchdog with a deadlock signature.",
+   "Read-ahead schedules are sampled; Seek targets outside 'block start + offset <= block length' are out of domain.",
+   "stateful model-based property testing (rapid) against a reference model",
+   "DESIGN.md 3/C02"),
+ "C03": ("exploration",
+   "Model-based + differential property testing: C02 histories with SetCache(LRU/FIFO/Random, capacity 1..6, plain or StatsRecorder-wrapped) at the start and at arbitrary points, revisit-heavy seeks, rd 0..8; oracle = the C02 reference model for every op plus an uncached reader running the same history (identical LastChunk/BlockLen trace); watchdog + deadlock signature for 'no call blocks forever', recover for panics.",
+   "As C02; a neutral pass-through around three quarters of the caches measures hits/evictions for the non-triviality rule.",
+   "stateful model-based property testing (rapid): reference model + differential against the uncached reader",
+   "DESIGN.md 3/C03"),
 }
 
 NOT_YET = {}
